@@ -854,7 +854,15 @@ def check_batch(chk, binary, stream, scripts, monitor, feed_sweeps=None, exact_l
     try:
         impl = run_ft(binary, lines)
     except common.ImplCrash as e:
-        chk.infra_errors.append("ftcache crashed or timed out (stream %s): %s" % (stream, str(e)[-1200:]))
+        chk.infra_errors.append("ftcache crashed or timed out (stream %s): %s" % (stream, _printable(str(e)[-1200:])))
+        # which script? halve the batch until one script is left whose process, run alone, does not finish normally
+        try:
+            found = isolate_crash(binary, lines)
+        except Exception:
+            found = None
+        if found:
+            chk.monitor_fail("crash", found[0], found[1][:1500], "stream %s: the harness process running this script alone did not finish normally "
+                             "(a panic in a library goroutine ends the process): %s" % (stream, " ".join(found[1].split())[-400:]))
         return []
     work = []   # (script, report line, trial, log, variants, base)
     mlines = []
@@ -971,6 +979,23 @@ def monitor_config(sc, log):
 
 def _printable(t):
     return "".join(ch if 32 <= ord(ch) < 127 or ch == "\n" else "?" for ch in t)
+
+
+def isolate_crash(binary, lines, env=None):
+    """(line, tail of the output) of one script whose process does not finish normally when run alone, or None"""
+    cur = list(lines)
+    while len(cur) > 1:
+        half = cur[:len(cur) // 2]
+        try:
+            run_ft(binary, half, env=env, timeout=240)
+            cur = cur[len(cur) // 2:]
+        except common.ImplCrash:
+            cur = half
+    try:
+        run_ft(binary, cur, env=env, timeout=120)
+    except common.ImplCrash as e:
+        return cur[0], _printable(str(e)[-700:])
+    return None
 
 
 def run_ft_isolating(binary, lines, env=None):
